@@ -32,7 +32,7 @@ def check(chk, repo):
         n_sites += len(weight_terms(w))
         st = check_order_only(rep, w, "")
         uses += st["uses"]
-        run_kinds(rep, w, rules=("K1", "K3", "K4"))
+        run_kinds(rep, w, rules=("K1", "K2", "K3", "K4"))
     chk.floor("arc-weight sites in supervised / semi-supervised fit and predict", n_sites, 6)
     chk.floor("uses of weight-derived values checked", uses, 30)
     M = Metrics(repo)
@@ -44,6 +44,9 @@ def check(chk, repo):
     # weights read back from a distance file must keep their order type: no rounding on the way to disk
     from .c10 import check_savetxt_format, distance_file_writer
     check_savetxt_format(rep, distance_file_writer(repo), "MONO-file")
+    # every forest is grown through the priority queue: its structural rules are a premise here too
+    from ..rules_heap import check_heap
+    check_heap(rep, repo, "HEAP-")
     chk.undecided += ["permutation invariance itself (needs uniqueness of the optimum-path forest for tie-free data)"]
     chk.assumptions += ["strict monotonicity is over the reals; distinct distances that round to the same float are "
                         "outside the property's tie-free premise"]
